@@ -2,7 +2,7 @@ SPECIFICATION Spec
 CONSTANTS
   ShapeIds = {7, 8, 9, 10, 11, 12, 13, 14, 15, 16, 17, 18}
   Intervals = {600}
-  TargetIds = {1, 2, 6}
+  TargetIds = {1, 6}
   ChainLen = 14
   Win = 1
   Spread = 1
